@@ -43,6 +43,8 @@ class FileClock:
         self.now_ns = 1_700_000_000 * 10**9
         self.root = ""
         self.stamped = 0
+        self.tear_at: int | None = None  # cut the next generated-module write after this many characters
+        self.torn = 0
 
 
 CLOCK = FileClock()
@@ -66,6 +68,18 @@ class _ClockedFile:
         os.utime(self._path, ns=(CLOCK.now_ns, CLOCK.now_ns))
         CLOCK.stamped += 1
 
+    def write(self, data):  # noqa: ANN001, ANN201
+        if CLOCK.tear_at is not None and self._path.endswith(".py"):
+            cut = CLOCK.tear_at
+            CLOCK.tear_at = None
+            CLOCK.torn += 1
+            self._f.write(data[:cut])
+            self._f.flush()
+            import errno
+
+            raise OSError(errno.ENOSPC, "No space left on device (injected)")
+        return self._f.write(data)
+
     def __getattr__(self, name):  # noqa: ANN001, ANN204
         return getattr(self._f, name)
 
@@ -84,6 +98,8 @@ def install_clock(root: str) -> None:
     CLOCK.root = root
     CLOCK.now_ns = 1_700_000_000 * 10**9
     CLOCK.stamped = 0
+    CLOCK.tear_at = None
+    CLOCK.torn = 0
     pathlib.Path.open = _sim_open
 
 
@@ -142,6 +158,7 @@ class Exec:
         self.last_read: dict = {}  # module name -> (second, size, doc)
         self._iso: dict = {}
         self._doc_bytes: dict = {}
+        self.torn_docs: set = set()
 
     def close(self) -> None:
         shutil.rmtree(self.base, ignore_errors=True)
@@ -214,10 +231,24 @@ class Exec:
                 return
             doc = self.at_path[key]
             p = self.path_of(op["path"])
+            if op.get("tear_at") is not None:
+                # fault: the write of the generated module is cut short (disk full) during THIS read
+                CLOCK.tear_at = int(op["tear_at"])
+                try:
+                    sbml.read(p)
+                    self.counters["fault_configured_not_reached:torn_module_write"] += 1
+                except Exception as e:  # noqa: BLE001
+                    self.counters["fault_fired:torn_module_write"] += 1
+                    self.trace.add("read", doc, op["path"], "torn", type(e).__name__)
+                finally:
+                    CLOCK.tear_at = None
+                self.torn_docs.add(doc)
+                return
             try:
                 m = sbml.read(p)
             except Exception as e:  # noqa: BLE001
-                self._viol("read_raised", ["read_raised", type(e).__name__], f"sbml.read of document {doc} at {op['path']} raised {type(e).__name__}: {str(e)[:100]}")
+                after = "after_torn_write" if doc in self.torn_docs else "no_fault"
+                self._viol("read_raised", ["read_raised", type(e).__name__, after], f"sbml.read of document {doc} at {op['path']} raised {type(e).__name__}: {str(e)[:100]} ({after})")
                 return
             mod = valid_filename(p.stem)
             # the generated module this read produced: the one its rate functions live in
@@ -313,6 +344,8 @@ def gen_case(rng: SimRng, tier: str) -> dict:  # noqa: ARG001
                 ops.append({"op": "read", "path": pth})
                 nreads += 1
         elif x < 0.55:
+            if r.random() < 0.12:
+                ops.append({"op": "read", "path": pth, "tear_at": r.choice([0, 1, 40, 300, 700])})
             ops.append({"op": "read", "path": pth})
             nreads += 1
         elif x < 0.75:
